@@ -377,17 +377,36 @@ class C15(verif.Spec):
     lean_modules = ["ZvbiModel.Props.C15"]
     harness = "idlpfc_harness"
     harness_link_lib = True
-    partial_note = ""
-    assumptions = []
-    trusted_base = []
-
+    partial_note = ("IDL: full for format A without pending repeats (the RI recovery state machine after a damaged "
+                    "repeating packet is covered by idl_crc_gate, correspondence and the oracle only). "
+                    "PFC: pfc_delivers_blocks is proved for every packetisation whose block pointers are usable "
+                    "(Spec.Admissible); that the executable sender Spec.encode always produces such packets is the open "
+                    "statement pfc_sender_admissible_full (checked on instances by decide and on every run by the "
+                    "sender cross-check and the oracle). Foreign page headers *between* our pages are covered by the "
+                    "single-step theorems pfc_foreign_*; the multi-page theorem has our pages back to back. "
+                    "Findings C15-F17-F20: full statements false on the unchanged tree, witnesses proved (…_counterexample).")
+    assumptions = ["the callbacks return TRUE (as in the harness)",
+                   "packets are 42 bytes; dx->block.pgno is a page number 0x100..0x8FF for the page level theorems",
+                   "dupecount (uint8_t) is a Nat: it is incremented at most 36 times per packet",
+                   "the allocator's fill byte is the only uninitialised-memory behaviour modelled (dx->flags)"]
+    open_statements = ["Zvbi.Props.C15.pfc_sender_admissible_full"]
+    trusted_base = ["translate/gen_idlpfc.py (CRC polynomial, FT/RI/flag masks, separator/filler nibbles, block[] extent, "
+                    "four source shape flags); cross-checked: the compiled idl_a_crc_table is compared with the model's "
+                    "table and with a Python bit-serial CRC on every run",
+                    "translate/gen_tables.py (Hamming 8/4 table)",
+                    "harness/idlpfc_harness.c + lean/Driver/{Idl,Pfc,Idlpfc}.lean (line-protocol correspondence)",
+                    "Idl/Spec.lean, Pfc/Spec.lean: my transcription of EN 300 708 (IDL format A 6.5, PFC 4); dummy bytes "
+                    "(6.5.7.1) and the unit of the block pointer (3 bytes) are libzvbi's reading, the standard text is not "
+                    "available offline",
+                    "lib/idlpfc_util.py: Python senders used by the generator and the oracle, compared with the Lean "
+                    "senders on every run (extra_checks)"]
     FAULT_TAGS_KNOWN = ("taildrop", "shlo2", "hdrlo2", "parallel")
     IDL_KINDS = ["clean", "clean", "loss", "corrupt", "hamming", "repeat", "uninit", "single"]
     PFC_KINDS = ["clean", "clean", "single", "drop", "taildrop", "drophdr", "droppage", "bp2", "pmag2", "shlo2",
                  "shhi2", "hdrlo2", "hdrhi2", "hdrpg2", "sep2", "parallel", "serial"]
 
     def gen_cases(self, rng, tier):
-        n_idl, n_pfc, n_rand = (400, 340, 60) if tier == "quick" else (6000, 5000, 800)
+        n_idl, n_pfc, n_rand = (1600, 1360, 300) if tier == "quick" else (16000, 13600, 3000)
         cases = [["idl crctab"]]
         for i in range(n_idl):
             cases.append(gen_idl_case(rng, self.IDL_KINDS[i % len(self.IDL_KINDS)]))
